@@ -290,3 +290,53 @@ Section Demux.
   Definition demux_push : push (nat * A) :=
     mkpush var_ready (fun ia l => var_send (fst ia) (snd ia) l) var_fin.
 End Demux.
+
+(* ------------------------------------------------------------------ fanout.rs / unzip.rs / demux_var.rs
+   AFTER the proposed finalize-once fix (fixes/C12_fanout_unzip_finalize_once.diff): a flag per
+   downstream records that its poll_finalize answered Done; such a downstream is not polled
+   again.  The correspondence check selects the variant that matches the source it runs against. *)
+
+Section TwoOnce.
+  Context {A B : Type} (p0 : push A) (p1 : push B).
+  Definition once_st : Type := ((bool * bool) * (St p0 * St p1))%type.
+
+  Definition both_fin_once (s : once_st) : bool * once_st :=
+    let (a, s0) := if fst (fst s) then (true, fst (snd s)) else fin p0 (fst (snd s)) in
+    let (b, s1) := if snd (fst s) then (true, snd (snd s)) else fin p1 (snd (snd s)) in
+    (a && b, ((a, b), (s0, s1))).
+
+  Definition unzip_once_push : push (A * B) :=
+    mkpush (St := once_st)
+           (fun s => let (r, s') := both_ready p0 p1 (snd s) in (r, (fst s, s')))
+           (fun ab s => match send (unzip_push p0 p1) ab (snd s) with
+                        | Some s' => Some (fst s, s') | None => None end)
+           both_fin_once.
+End TwoOnce.
+
+Definition fanout_once_push {A} (p0 p1 : push A) : push A :=
+  mkpush (St := once_st p0 p1)
+         (fun s => let (r, s') := both_ready p0 p1 (snd s) in (r, (fst s, s')))
+         (fun a s => match send (fanout_push p0 p1) a (snd s) with
+                     | Some s' => Some (fst s, s') | None => None end)
+         (@both_fin_once _ _ p0 p1).
+
+Section DemuxOnce.
+  Context {A : Type} (nx : push A).
+  (* DemuxVar.finalized bit mask (the fix tracks the first 64 pushes; the model all of them) *)
+  Fixpoint var_fin_once (fl : list bool) (l : list (St nx)) : bool * (list bool * list (St nx)) :=
+    match l with
+    | [] => (true, ([], []))
+    | s :: rest =>
+      let (a, s') := if hd false fl then (true, s) else fin nx s in
+      match var_fin_once (tl fl) rest with
+      | (b, (fl', rest')) => (a && b, (a :: fl', s' :: rest'))
+      end
+    end.
+
+  Definition demux_once_push : push (nat * A) :=
+    mkpush (St := (list bool * list (St nx))%type)
+           (fun s => let (r, l') := var_ready nx (snd s) in (r, (fst s, l')))
+           (fun ia s => match var_send nx (fst ia) (snd ia) (snd s) with
+                        | Some l' => Some (fst s, l') | None => None end)
+           (fun s => var_fin_once (fst s) (snd s)).
+End DemuxOnce.
